@@ -6,7 +6,7 @@ Line:  C01 <op> <nwfs> <nlayers> <telDiam> <eps>  { <nrows> <ncols> <mask cellsâ
                                                   { <alt> <r0> <L0> }*nlayers
   ints in decimal, floats as 16-hex-digit bit patterns.
   op = build   full matrix, von KÃ¡rmÃ¡n structure function (Gen.structure_function_vk, quadrature K_Î½)
-       place   full matrix, stand-in  D(r, r0, L0) = floor(16 rÂ² + 0.5) Â· r0
+       place   full matrix, stand-in  D(r, r0, L0) = floor(16 rÂ² + 1/2 + 2^-12) Â· r0
        pre     matrix before mirroring, stand-in D
        geom    per layer, per sensor: projected diameter, then x y of every sub-aperture
        where   per sensor: number of sub-apertures then row col of each (`numpy.where(mask == 1)` order)
@@ -37,8 +37,7 @@ def parseWfs (toks : List String) : Option (Wfs Float Ã— List (List Nat) Ã— List
     let (fl, rest) â† takeN rest 5
     let fl â† parseFloats? fl
     let mask : List (List Nat) := (List.range nr).map (fun r => (List.range nc).map (fun c => cells[r * nc + c]!))
-    let ones := (whereOnes mask).toArray
-    pure (âŸ¨ones.size, fun a => ones[a]!, fl[0]!, fl[1]!, fl[2]!, fl[3]!, fl[4]!âŸ©, mask, rest)
+    pure (Wfs.ofMask mask fl[0]! fl[1]! fl[2]! fl[3]! fl[4]!, mask, rest)
   | _ => none
 
 def parseAll (toks : List String) : Option Parsed := do
@@ -63,7 +62,7 @@ def parseAll (toks : List String) : Option Parsed := do
   | _ => none
 
 /-- integer-valued stand-in structure function (exact in binary64 on dyadic geometry) -/
-def standIn (r r0 _L0 : Float) : Float := Float.floor ((16.0 * r) * r + 0.5) * r0
+def standIn (r r0 _L0 : Float) : Float := Float.floor ((16.0 * r) * r + 0.500244140625) * r0
 
 def vk (r r0 L0 : Float) : Float := Gen.structure_function_vk r r0 L0
 
